@@ -46,7 +46,7 @@ def cases(draw, tier="quick"):
         nsamples = max(1, len(strings))
     # distribute: every string at least once
     assign = [draw(st.integers(0, nsamples - 1)) for _ in strings]
-    dup = draw(st.booleans())
+    dup = draw(st.sampled_from([0, 0, 1, 2, 8, 15]))
     opts = {"fw": draw(st.sampled_from(gen.FRAMEWORKS)),
             "max_literals": draw(st.one_of(st.integers(0, 16), st.sampled_from([len(strings), len(strings) + 1, max(0, len(strings) - 1)]))),
             "sreg": draw(st.sampled_from([list(pl.DEFAULT_SREG), list(pl.FULL_SREG), []])),
@@ -79,8 +79,10 @@ def build_samples(case):
     buckets = [[] for _ in range(n)]
     for s, a in zip(strings, assign):
         buckets[a % n].append(s)
-    if case.get("dup") and strings:
-        buckets[0].append(strings[-1])
+    nd = int(case.get("dup") or 0)
+    if nd and strings:
+        # observed again: the same strings occur a second time at the position (in another container / sample)
+        buckets[-1].extend(strings[:nd])
     samples = []
     if pos == "scalar":
         flat = [s for b in buckets for s in b]
